@@ -289,6 +289,7 @@ func derivesOnly(x, e ssa.Value) bool {
 }
 
 func runC09(c *Ctx) {
+	c.statSizeNeverMeansEmpty()
 	c.rule("A1", "entry gate: no mutating effect and no non-error return before the context has been consulted", 45)
 	c.rule("A2", "loops: every cyclic path through a backend access passes a gate; function literals handed to loop combinators are gate-first", 8)
 	c.rule("A3", "recursion: every call-graph cycle that touches the backend contains a gate-first function", 4)
